@@ -82,6 +82,14 @@ def np_state(c, r):
     return pcs.StabilizerState(np_g(L), ps=ints(K)).set_r(int(r))
 
 
+def int_form(x, be='np'):
+    """an integer argument (rank, register size) as a Python int (usual) or, for pyclifford, as a NumPy integer scalar such as an array element or
+    a rank computed by NumPy; the form is a pure function of the value, so cases replay identically."""
+    if x is None or be != 'np':
+        return x
+    return (int, int, np.int64, int, np.intp, np.int32, int)[int(x) % 7](x)
+
+
 def _arr(x, what):
     try:
         a = np.asarray(x)
@@ -290,6 +298,21 @@ class NP(object):
         return m
 
     @staticmethod
+    def mask_arg(qubits, N):
+        """the qubit mask in one of the forms the masked methods (rotate_by, transform_by, embed) accept: boolean ndarray (usual), a comparison
+        result, a Python list or tuple of booleans.  The form is a pure function of (qubits, N), so cases replay identically."""
+        m = np.zeros(N, dtype=np.bool_)
+        m[list(qubits)] = True
+        form = (7 * sum(int(q) for q in qubits) + 3 * N + len(list(qubits))) % 8
+        if form == 5:
+            return [bool(x) for x in m]
+        if form == 6:
+            return tuple(bool(x) for x in m)
+        if form == 7:
+            return np.isin(np.arange(N), list(qubits))
+        return m
+
+    @staticmethod
     def read_state(S):
         return read_state(S)
 
@@ -319,6 +342,10 @@ class TORCH(object):
         m = T.zeros(N, dtype=T.bool)
         m[list(qubits)] = True
         return m
+
+    @staticmethod
+    def mask_arg(qubits, N):
+        return TORCH.mask(qubits, N)
 
     @staticmethod
     def read_state(S):
